@@ -27,6 +27,9 @@ pub assume_specification<T, A: Allocator, I: IntoIterator<Item = T>>[<Vec<T, A> 
 pub assume_specification<'a, T: Copy + 'a, A: Allocator, I: IntoIterator<Item = &'a T>>[<Vec<T, A> as Extend<&'a T>>::extend::<I>](v: &mut Vec<T, A>, i: I)
     ensures final(v)@ == old(v)@ + iter_seq::<T, I>(i);
 
+pub assume_specification<T: Clone>[<[T]>::to_vec](s: &[T]) -> (r: Vec<T>)
+    ensures r@ == s@;
+
 // ---- slice -> array conversion
 #[verifier::external_type_specification]
 #[verifier::external_body]
